@@ -1263,6 +1263,26 @@ fn gen_c05(o: &mut Out, r: &mut Rng, d: &GDict, tier: &str) {
             }
         }
     }
+    // (1b) the same through the stream codec: a stream that accepts k octets (in one piece, dribbled, or around a pause)
+    // and then fails with an error or by accepting nothing (`Ok(0)`); every k for small frames, sampled otherwise
+    for m in corpus.iter() {
+        let n = m.encode(&mut None).len();
+        o.case(&format!("stream faults len={}", n));
+        let mut ls = vec![];
+        m.ops(r, &mut ls);
+        o.lines(&ls);
+        let ks: Vec<usize> = if thorough || n <= 120 { (0..n).collect() } else { (0..40).map(|_| r.below(n as u64) as usize).collect() };
+        for k in ks {
+            let end = if k % 2 == 0 { "f" } else { "a0" };
+            let pre = match (k, k % 3) {
+                (0, _) => String::new(),
+                (_, 0) => format!("a{},", k),
+                (_, 1) => format!("{},", vec!["a1"; k.min(64)].join(",")) + &(if k > 64 { format!("a{},", k - 64) } else { String::new() }),
+                _ => format!("p,a{},p,a{},p,", k / 2 + 1, k - k / 2 - 1).replace("a0,p,", ""),
+            };
+            o.line(&format!("senc {}{}", pre, end));
+        }
+    }
     // (2) values the wire cannot carry: Times around both ends of the 32-bit 1900-based range, at top level and in groups
     let times: [i64; 14] = [-2208988801, -2208988800, -2208988799, 0, 2085978495, 2085978496, 2085978497, 2208988800, 4294967296, -62135596800, 253402300799, -5000000000, 2524608000, -2208988800 - 86400];
     let tdef = d.by_type(T_TIME)[0].clone();
@@ -1879,6 +1899,8 @@ fn gen_c11(o: &mut Out, r: &mut Rng, d: &GDict, tier: &str) {
                         0 => 0,
                         1 => 4294967295,
                         2 => 1 + ids.len() as u32,
+                        // ids that collide with the first one when the key is narrowed, masked or reduced modulo a table size
+                        3 if !ids.is_empty() => ids[0].wrapping_add(((1 + r.below(3)) as u32) << *r.pick(&[4u32, 6, 8, 10, 16, 24, 31])),
                         _ => r.next() as u32,
                     };
                     if !ids.contains(&h) {
